@@ -88,12 +88,12 @@ def run_collector(als, high_memory):
     return col, delivered
 
 
-def h_split(n, max_len):
+def h_split(n, max_len, universe=UNIVERSE):
     def fn(g):
         als = []
         prev = None
         for i in range(n):
-            s = g.int("start%d" % i, 0, UNIVERSE - 1)
+            s = g.int("start%d" % i, 0, universe - 1)
             ln = g.int("length%d" % i, 1, max_len)
             if prev is not None:
                 g.add(prev <= s)
@@ -163,6 +163,10 @@ def instances(tier, seed):
     for n, ml in ([(1, 6), (2, 6), (3, 5)] if q else [(1, 8), (2, 8), (3, 8), (4, 6)]):
         out.append(Instance("split[n=%d,len<=%d]" % (n, ml), h_split(n, ml), F,
                             "%d sorted alignments, start in [0,%d), length <= %d, scaled constants" % (n, UNIVERSE, ml), weight=100 ** n, budget_s=2400 if q else 7200))
+    if q:
+        # three alignments chained over four bins (needs length 6): the smallest shape with a tail sub-region that ends inside a bin
+        out.append(Instance("split[n=3,len<=6,start<14]", h_split(3, 6, 14), F,
+                            "3 sorted alignments, start in [0,14), length <= 6, scaled constants", weight=100 ** 3, budget_s=2400))
     for nb in ((1, 2, 3, 4, 5, 6, 7) if q else (1, 2, 3, 4, 5, 6, 7, 8, 9)):
         out.append(Instance("tile[bins=%d]" % nb, h_split_regions_tile(nb), [A + "AlignmentCollector.split_coverage_regions"],
                             "%d coverage bins with symbolic coverage, symbolic region ends" % nb, weight=3 ** nb, budget_s=900))
